@@ -109,6 +109,9 @@ def edge_fact(body, sb, lab):
                 return ("ne", a, cb)
             return ("cmp", a, lo, hi)
         return None
+    if e[0] != "discr" and t["discr_ty"] not in ("bool",) and lab != "otherwise" and isinstance(lab, int):
+        # integer switch (`match x { 0 => .., _ => .. }`, `matches!(x, 0)`): this arm means x == lab
+        return ("cmp", e, lab, lab)
     if e[0] == "discr":
         inner = strip_refs(e[1])
         if inner[0] == "mem":
@@ -378,3 +381,183 @@ def callers_of(F, key):
             if t.get("local_key") == key:
                 out.append((b, bb, t))
     return out
+
+
+# ----------------------------------------------------------------------------- inlined sites
+def described_guards(body, bb, subst=None):
+    """guards_at(), with every expression already described (in the context given by subst):
+       ('cmp', desc, lo, hi) ('cmp2', op, descA, descB) ('pred', callee, desc_arg0, bool) ('cls', desc, cls) ('ne', desc, k)"""
+    out = []
+    for g in guards_at(body, bb):
+        k = g[0]
+        if k == "cmp":
+            out.append(("cmp", describe(body, g[1], 0, subst), g[2], g[3]))
+        elif k == "cmp2":
+            out.append(("cmp2", g[1], describe(body, g[2], 0, subst), describe(body, g[3], 0, subst)))
+        elif k == "pred":
+            out.append(("pred", g[1], describe(body, g[2], 0, subst) if g[2] is not None else None, g[3]))
+        elif k == "cls":
+            out.append(("cls", describe(body, g[3], 0, subst) if g[3] is not None else None, g[2]))
+        elif k == "ne":
+            out.append(("ne", describe(body, g[1], 0, subst), g[2]))
+    return out
+
+
+class Site:
+    """a call site seen from a root function, possibly inside private helpers / closures that the
+    root calls (which are not anchors): guards and operand descriptions are expressed in the root's
+    terms, so extracting the code into a helper does not change what a rule sees"""
+
+    def __init__(self, root, chain, t, subst):
+        self.root, self.chain, self.t, self.subst = root, chain, t, subst
+        self.body, self.bb = chain[-1]
+
+    @property
+    def name(self):
+        return callee_name(self.t)
+
+    def desc(self, i):
+        return describe(self.body, self.body.origin_operand(self.t["args"][i]), 0, self.subst[-1])
+
+    def guards(self):
+        out = []
+        for (b, bb), sub in zip(self.chain, self.subst):
+            out += described_guards(b, bb, sub)
+        return out
+
+    def label(self):
+        n = self.name
+        b, bb = self.chain[0]
+        c = sum(1 for i in range(bb) if b.term(i)["k"] == "call" and callee_name(b.term(i)) == callee_name(b.term(bb)))
+        via = "" if len(self.chain) == 1 else " via " + "/".join(x.path.rsplit("::", 1)[-1] for x, _ in self.chain[1:])
+        return "%s#%d%s" % (n if len(self.chain) == 1 else callee_name(b.term(bb)), c, (">" + n.rsplit("::", 1)[-1] + via) if via else "")
+
+    @property
+    def line(self):
+        return self.t.get("line", 0)
+
+
+def inlined_sites(root, want, depth=3):
+    """all call sites reachable from `root` through non-anchor helpers and local closures whose callee
+    name satisfies want(name)"""
+    F = root.facts
+    out = []
+
+    def walk(body, chain, subst, d, seen):
+        for bb, t in body.calls():
+            n = callee_name(t)
+            here = chain + [(body, bb)]
+            sub_here = subst + [subst[-1] if subst else None]
+            # subst for this frame is the last element of subst (the frame's own parameter map)
+            if want(n):
+                out.append(Site(root, here, t, subst + [cur_sub(subst)]))
+            k = t.get("local_key")
+            targets = []
+            if k and k in F.bodies and k not in anchors(F) and F.bodies[k].j["kind"] != "closure":
+                targets.append((k, True))
+            for c in t.get("cb_closures", []):
+                if c in F.bodies:
+                    targets.append((c, False))
+            for a in t["args"]:
+                if "c" in a and "closure" in a["c"] and a["c"]["closure"] in F.bodies:
+                    targets.append((a["c"]["closure"], False))
+            for (k2, is_fn) in targets:
+                if d <= 0 or k2 in seen:
+                    continue
+                hb = F.bodies[k2]
+                if is_fn:
+                    sub = {i + 1: describe(body, body.origin_operand(a), 0, cur_sub(subst)) for i, a in enumerate(t["args"])}
+                else:
+                    sub = None
+                walk(hb, here, subst + [cur_sub(subst), sub][1:] if False else subst + [sub], d - 1, seen | {k2})
+
+    def cur_sub(subst):
+        return subst[-1] if subst else None
+
+    # frame stack: subst[i] is the parameter map of chain[i]'s body
+    def walk2(body, chain, subs, d, seen):
+        for bb, t in body.calls():
+            n = callee_name(t)
+            here = chain + [(body, bb)]
+            if want(n):
+                out.append(Site(root, here, t, subs))
+            k = t.get("local_key")
+            targets = []
+            if k and k in F.bodies and k not in anchors(F) and F.bodies[k].j["kind"] != "closure":
+                targets.append((k, True))
+            for c in t.get("cb_closures", []):
+                if c in F.bodies:
+                    targets.append((c, False))
+            for (k2, is_fn) in targets:
+                if d <= 0 or k2 in seen:
+                    continue
+                hb = F.bodies[k2]
+                sub = {i + 1: describe(body, body.origin_operand(a), 0, subs[-1]) for i, a in enumerate(t["args"])} if is_fn else None
+                walk2(hb, here, subs + [sub], d - 1, seen | {k2})
+        # closures constructed here and called later through std combinators are found via cb_closures
+
+    walk2(root, [], [None], depth, {root.path})
+    return out
+
+
+def inlined_bodies(root, depth=3):
+    """the root plus the non-anchor helper functions it calls (transitively), each with the map
+    describing its parameters in the root's terms: list of (body, subst)"""
+    F = root.facts
+    out = [(root, None)]
+    seen = {root.path}
+
+    def walk(body, sub, d):
+        for bb, t in body.calls():
+            k = t.get("local_key")
+            if k and k in F.bodies and k not in anchors(F) and k not in seen and F.bodies[k].j["kind"] != "closure" and d > 0:
+                seen.add(k)
+                hb = F.bodies[k]
+                s2 = {i + 1: describe(body, body.origin_operand(a), 0, sub) for i, a in enumerate(t["args"])}
+                out.append((hb, s2))
+                walk(hb, s2, d - 1)
+    walk(root, None, depth)
+    return out
+
+
+def anchor_callers(F, key, depth=4):
+    """anchor functions from which `key` (a non-anchor helper or a closure) is reached through
+    non-anchor helpers / closures only"""
+    out, seen = set(), {key}
+    work = [(key, depth)]
+    while work:
+        k, d = work.pop()
+        b = F.bodies.get(k)
+        if b is None:
+            continue
+        parents = set()
+        if b.j["kind"] == "closure" and b.j.get("parent"):
+            parents.add(b.j["parent"])
+        for cb, _, _ in callers_of(F, k):
+            parents.add(cb.path)
+        for p in parents:
+            if p in anchors(F) and F.bodies.get(p) is not None and F.bodies[p].j["kind"] != "closure":
+                out.add(p)
+            elif p not in seen and d > 0:
+                seen.add(p)
+                work.append((p, d - 1))
+    return out
+
+
+def must_pass_call(body, names, depth=2):
+    """every path entry -> return of `body` passes a call to one of `names`, directly or inside a
+    non-anchor helper that itself always passes one"""
+    F = body.facts
+    blocks = set()
+    for bb, t in body.calls():
+        n = callee_name(t)
+        if n in names:
+            blocks.add(bb)
+        else:
+            k = t.get("local_key")
+            if k and depth > 0 and k in F.bodies and k not in anchors(F) and must_pass_call(F.bodies[k], names, depth - 1):
+                blocks.add(bb)
+    if not blocks:
+        return False
+    reach = body.reachable(0, unwind=False, stop=lambda b: b in blocks)
+    return not any(body.term(b)["k"] == "return" and b not in blocks for b in reach)
